@@ -491,3 +491,36 @@ def key_encodings(vs: bool, vx: bool, wk: int, wq: int, long_auth: bool) -> bool
             c2.hashlib = hashlib
             if "bytes" in c2.__dict__:
                 del c2.bytes
+
+
+# ------------------------------------------------------------------ attestation key fields that are hex but no key
+
+BAD_KEYS = ["04" + "11" * 64,                  # 65 bytes, uncompressed prefix, not on the curve
+            "11" * 64,                         # raw x||y, not on the curve
+            "aabb",                            # far too short
+            "05" + P256_G[2:],                 # a point with an unknown prefix byte
+            "02" + "00" * 31 + "05",           # compressed form whose x has no point (5: x^3-3x+b is no square) or has - either way a verdict
+            P256_G + "00"]                     # one byte too many
+
+
+@obligation(tier="quick", timeout=120,
+            bounds="version 2 chain quote <- attestation key <- x509 whose attestation key field is hex but not (necessarily) a P-256 "
+                   "point: 6 catalogue values (symbolic selection); element verdict symbolic: the document is refused when loading, or "
+                   "it loads, validates to a verdict and survives save / load",
+            examples=[(0, dict(i=i, verdict=False)) for i in range(len(BAD_KEYS))])
+def key_not_a_point(i: int, verdict: bool) -> bool:
+    """
+    pre: 0 <= i < len(BAD_KEYS)
+    post: _
+    """
+    root = {"name": "quoting_enclave", "type": "x509_pem", "message": "QUJD", "signed_by": "sgx_root"}
+    e = {"name": "attkey", "type": "sgx_attestation_key", "signed_by": "quoting_enclave", "message": ATTKEY_MSG,
+         "key": pick(BAD_KEYS, i), "auth_data": "dd", "signature": "3000"}
+    q = {"name": "quote", "type": "sgx_quote", "message": QUOTE_MSG, "custom_data": "cc", "signature": "3000", "signed_by": "attkey"}
+    doc = {"version": 2, "targets": ["quote"], "elements": [q, e, root]}
+    try:
+        return check(doc, verdict, 2)
+    except Exception as ex:
+        reraise_control_flow(ex)
+        note("raised", type(ex).__name__, str(ex)[:200])
+        return False
